@@ -47,6 +47,7 @@ typedef void (*myth_tls_destructor_fun_t)(void *);
 typedef struct myth_tls_key_entry {
   struct myth_tls_key_entry * next;
   myth_tls_destructor_fun_t destructor;
+  int posix_destructor;	/* key made by pthread_key_create: the destructor is not called for NULL values */
 } myth_tls_key_entry_t;
 
 /* the toplevel data structure to allocate unsed keys from */
